@@ -98,8 +98,8 @@ Print Assumptions C18_attribute_sources.
         the number of real eval() calls) ---- *)
 Theorem C18_python_gate :
   forall (val : Type) (v_false v_true : val) (v_str : str -> val) (is_none is_default truthy : val -> bool)
-         (text_of : val -> str) (traverse : str -> bool -> option val) (py : str -> val) (fuel : nat) (e : str),
-    snd (evaluate val v_false v_true v_str is_none is_default truthy text_of traverse py fuel false e) = 0%nat /\
+         (text_of : val -> str) (traverse : str -> bool -> option val) (py : str -> val) (strip1 : bool) (fuel : nat) (e : str),
+    snd (evaluate val v_false v_true v_str is_none is_default truthy text_of traverse py strip1 fuel false e) = 0%nat /\
     eval_python val v_false py false e = (Some v_false, 0%nat).
 Proof. exact TALESEvalFacts.python_gate_full. Qed.
 Print Assumptions C18_python_gate.
